@@ -173,6 +173,16 @@ def check_unit(cu, U, sh, rng, di, is_tu=False, streams=()):
                 if t.offset != tu.type_die.off or t.cu.cu_offset != tu.off:
                     raise Bad('ref_sig8 resolves to the wrong entry', got=t.offset, want=tu.type_die.off)
                 sh.sig(('ref', 'sig8', U.ver))
+                # the unit object reached through the signature has a cache of its own, entered in the middle: entries
+                # looked up by offset in any order, and the walk from the top, must still be the encoded ones
+                tcu = t.cu
+                offs = [x.off for x in tu.dies if not x.null]
+                for o in rng.sample(offs, min(4, len(offs))):
+                    x = tcu.get_DIE_from_refaddr(o)
+                    if x.offset != o:
+                        raise Bad('lookup by offset in a type unit reached through its signature returns another entry', got=x.offset, want=o)
+                if [x.offset for x in tcu.iter_DIEs()] != [x.off for x in tu.dies]:
+                    raise Bad('walk of a type unit reached through its signature differs from the encoded entries')
             else:
                 poison(streams, rng)
                 t = d.get_DIE_from_attribute(name)
